@@ -83,6 +83,21 @@ def h_history(ex, dll, steps, windows=(2, 2, 2), explore=False):
         hist.append([s, d, kind, L, outcome])
     info = {'history': hist}
     w.branching = False
+    # ---- supporting evidence for histories longer than the bound (DESIGN C10 part 2): after quiescence the protocol
+    # state of every stack equals that of a fresh stack with the same configuration.  Reported, never claimed.
+    try:
+        import j1939
+        same = True
+        for i, nm in enumerate('ABC'):
+            twin = w.add_node('T' + nm, dll=dll, max_cmdt_packets=windows[i])
+            tca = j1939.ControllerApplication(st[nm].ca._name, ADDR[nm], bypass_address_claim=True)
+            twin.ecu.add_ca(controller_application=tca)
+            w.nodes.remove(twin)          # the twin is not on the bus
+            if W.protocol_state(st[nm].node.ecu) != W.protocol_state(twin.ecu):
+                same = False
+        ex.note('state_equal_to_fresh after history: %s' % ('yes' if same else 'NO (induction not available, claim bounded by the history length)'))
+    except Exception as e:
+        ex.note('state_equal_to_fresh: not evaluated (%s)' % type(e).__name__)
     ex.claim('job_threads_alive', all(x.alive() for x in st.values()), info)
     # ---- the full advertised concurrency is available again
     for x in st.values():
@@ -251,6 +266,6 @@ def meta(tier):
                    'afterwards the full advertised concurrency is started at once: J1939-21 all six directed pairs plus one BAM per stack; J1939-22 8 RTS/CTS + 4 BAM from one stack; every message must be accepted and delivered exactly once intact; one call beyond the capacity must be refused without emitting a frame',
                    'inbound sessions (1-2, payload symbolic) in flight while the stack starts its full outbound concurrency after a symbolic number of bus frames, and again after they ended',
                    'canonical schedule (no interleaving exploration: C10 quantifies over histories, C01/C02/C06 over schedules)'],
-        'outside': ['histories longer than ' + ('2' if tier == 'quick' else '3') + ' (the return-to-fresh induction of DESIGN C10 part 2 is not claimed in this round)', 'other interleavings'],
+        'outside': ['histories longer than ' + ('2' if tier == 'quick' else '3') + ' (supported, not claimed, by the return-to-fresh observation: see observations in this file)', 'other interleavings'],
         'assumptions': [],
     }
